@@ -76,6 +76,10 @@ pub struct Exec<const V: usize> {
     pub dead_addrs: Vec<(usize, u64, usize)>,
     pub in_marking_ops: u64,
     pub nogc_allocated: usize,
+    pub alloc_call_seq: u64,
+    /// an allocation with allow_overcommit succeeded: the heap may legitimately exceed its size
+    pub overcommitted: bool,
+    pub overcommitted_bytes: usize,
 }
 
 macro_rules! cnt {
@@ -186,6 +190,9 @@ impl<const V: usize> Exec<V> {
             dead_addrs: vec![],
             in_marking_ops: 0,
             nogc_allocated: 0,
+            alloc_call_seq: 0,
+            overcommitted: false,
+            overcommitted_bytes: 0,
             case,
         };
         let n = (e.case.mutators.max(1) as usize).min(MAX_MUTATORS);
@@ -503,6 +510,9 @@ impl<const V: usize> Exec<V> {
         let ops = self.case.ops.clone();
         for (i, op) in ops.iter().enumerate() {
             self.step = i;
+            if std::env::var("VH_TRACE").is_ok() {
+                eprintln!("step {}: {:?}", i, op);
+            }
             self.exec_op(op);
             safepoint();
             self.after_possible_gc();
@@ -742,13 +752,16 @@ impl<const V: usize> Exec<V> {
                     return;
                 }
                 let _ = mm::pin_object(oref(a));
-                if mm::is_pinned(oref(a)) {
-                    if space == "immix" || space == "nonmoving" {
+                // sft.rs documents `is_object_pinned` as the current pin state only for policies that
+                // support pinning (Immix); non-moving policies answer inconsistently (ImmortalSpace: true,
+                // MarkSweepSpace: false) and C04 does not talk about that return value.
+                if space == "immix" || space == "nonmoving" {
+                    if mm::is_pinned(oref(a)) {
                         self.objs.get_mut(&id).unwrap().pinned = true;
                         cnt!(self, "pin");
+                    } else {
+                        self.violate("C04", "pin-not-pinned", format!("is_pinned is false right after pin_object on id {} in space {}", id, space));
                     }
-                } else {
-                    self.violate("C04", "pin-not-pinned", format!("is_pinned is false right after pin_object on id {} in space {}", id, space));
                 }
             }
             Op::Unpin { m, root } => {
@@ -780,6 +793,12 @@ impl<const V: usize> Exec<V> {
                 let a = self.root_addr(m, r);
                 let space = mmtk::verif::space_name_of(addr(a));
                 if k != 0 && !pin_supported(space) {
+                    return;
+                }
+                // plans whose GCWorkContext::PinningTrace is `UnsupportedTrace` ("plans that don't
+                // support object pinning", plan/tracing/mod.rs) cannot be given pinning root nodes
+                if k != 0 && !matches!(self.case.plan.as_str(), "Immix" | "StickyImmix" | "ConcurrentImmix" | "MarkSweep" | "PageProtect" | "NoGC") {
+                    cnt!(self, "pinning_root_skipped_unsupported_plan");
                     return;
                 }
                 g().mutators.lock().unwrap()[m].root_kind[r].store(k, Ordering::Relaxed);
@@ -1136,8 +1155,20 @@ impl<const V: usize> Exec<V> {
     }
 
     fn pop_finalized(&mut self, m: usize, r: usize, n: usize) {
+        let drain = n == 8;
+        let n = if drain { usize::MAX } else { n };
         for i in 0..n {
-            let Some(o) = mm::get_finalized_object(self.mmtk) else { break };
+            let Some(o) = mm::get_finalized_object(self.mmtk) else {
+                // the ready queue is empty: every registration the model knows to be ready must have been returned
+                if let Some(id) = self.fin_must_ready.first().copied() {
+                    self.violate("C06", "finalizable-not-returned", format!("get_finalized_object returned None although object id {} (registered, unreachable at the last exhaustive GC) was never returned", id));
+                    return;
+                }
+                if drain {
+                    cnt!(self, "finalized_drained");
+                }
+                break;
+            };
             let a = o.to_raw_address().as_usize();
             let id = self.raw(a).id();
             cnt!(self, "finalized_popped");
@@ -1203,6 +1234,7 @@ impl<const V: usize> Exec<V> {
         }
         w.new_addr.insert(id, a);
         w.seen_addr.insert(a, id);
+        w.parent.insert(id, w.cur_holder);
         w.queue.push((id, a));
     }
 
@@ -1216,6 +1248,9 @@ impl<const V: usize> Exec<V> {
                 return;
             };
             let o = o.clone();
+            // problems with the object itself (found through a possibly stale reference) are attributed
+            // to the object holding that reference
+            w.cur_holder = w.parent.get(&id).copied().unwrap_or(0);
             if !mm::is_in_mmtk_spaces(oref(a)) {
                 w.err(format!("object id {} at {:#x} is not in any MMTk space", id, a));
                 return;
@@ -1240,6 +1275,7 @@ impl<const V: usize> Exec<V> {
                 }
             }
             let is_ref = matches!(o.kind, KIND_SOFT | KIND_WEAK | KIND_PHANTOM);
+            w.cur_holder = id;
             for i in 0..o.nrefs {
                 let v = raw.slot(i);
                 let fid = o.fields[i];
@@ -1339,12 +1375,16 @@ impl<const V: usize> Exec<V> {
 
         // --- model sets on the pre-GC shadow graph
         let roots = self.root_ids();
-        let _r0 = self.strong_closure(&roots, false);
-        let r1 = self.strong_closure(&roots, true);
+        // emergency collections do not retain softly reachable referents (reference_processor.rs)
+        let emergency = gl.emergency_seen.swap(false, Ordering::SeqCst);
+        if emergency {
+            cnt!(self, "gc_emergency");
+        }
+        let r1 = self.strong_closure(&roots, !emergency);
         let fin_unreach: Vec<u64> = self.fin_registered.iter().copied().filter(|id| !r1.contains(id)).collect();
         let mut r2_starts = roots.clone();
         r2_starts.extend(fin_unreach.iter().copied());
-        let r2 = self.strong_closure(&r2_starts, true);
+        let r2 = self.strong_closure(&r2_starts, !emergency);
 
         // --- the walk
         let mut w = Walk::default();
@@ -1373,6 +1413,7 @@ impl<const V: usize> Exec<V> {
             (ws.ephemerons.iter().map(|e| (e.key, e.value, e.key_id, e.value_id)).collect(), std::mem::take(&mut ws.dropped))
         };
         if w.error.is_none() {
+            w.cur_holder = 0;
             for (ka, va, kid, vid) in &eph_now {
                 self.walk_from(&mut w, *kid, *ka, "ephemeron key");
                 self.walk_from(&mut w, *vid, *va, "ephemeron value");
@@ -1386,13 +1427,19 @@ impl<const V: usize> Exec<V> {
             let edges = std::mem::take(&mut w.weak_edges);
             for (fid, v, rid) in edges {
                 let via = format!("referent of reference object id {}", rid);
+                w.cur_holder = rid;
                 self.walk_from(&mut w, fid, v, &via);
             }
             self.walk_drain(&mut w);
         }
         if let Some(e) = w.error.take() {
             let prop = if e.contains("referent") || e.contains("reference object") { "C06" } else if e.contains("ephemeron") { "C13" } else { "C01" };
-            self.violate(prop, "graph-mismatch", format!("after GC #{} ({}): {}", self.gcs_seen, if full_heap { "full" } else { "nursery" }, e));
+            // Known finding (C01): the Compressor does not update references held by objects of the immortal
+            // and non-moving spaces.  The signature is structural: plan + space of the object holding the
+            // stale slot, so any other graph mismatch keeps the generic signature and is reported.
+            let holder_space = w.err_holder.and_then(|h| self.objs.get(&h)).map(|o| o.space).unwrap_or("");
+            let sig = if prop == "C01" && self.case.plan == "Compressor" && matches!(holder_space, "immortal" | "nonmoving") { "compressor-stale-ref-from-immortal-or-nonmoving" } else { "graph-mismatch" };
+            self.violate(prop, sig, format!("after GC #{} ({}): {}", self.gcs_seen, if full_heap { "full" } else { "nursery" }, e));
             return;
         }
 
@@ -1433,10 +1480,18 @@ impl<const V: usize> Exec<V> {
             for (rid, fid) in &w.retained {
                 let kind = self.objs[rid].kind;
                 let must_clear = match kind {
-                    KIND_SOFT => false, // soft references are only cleared in emergency collections
+                    KIND_SOFT => emergency && !r1.contains(fid), // soft references are only cleared in emergency collections
                     KIND_WEAK => !r1.contains(fid),
                     _ => !r2.contains(fid),
                 };
+                // Reference processing decides by `ObjectReference::is_live`, which ImmortalSpace answers
+                // with `true` by documented design ("Objects in ImmortalSpace may have is_live = true but
+                // are actually unreachable", sft.rs): an immortal referent never dies, so it is never
+                // "otherwise unreachable and reclaimable".  The oracle abstains for such referents.
+                if must_clear && self.immortal_ids.contains(fid) {
+                    cnt!(self, "c06_abstain_immortal_referent");
+                    continue;
+                }
                 if must_clear && self.ref_registered.contains_key(rid) {
                     self.violate("C06", "unreachable-referent-not-cleared", format!("exhaustive GC #{}: reference object id {} (kind {}) kept referent id {} which was not otherwise reachable", self.gcs_seen, rid, kind, fid));
                     return;
@@ -1479,9 +1534,17 @@ impl<const V: usize> Exec<V> {
             if !self.fin_maybe_ready.contains(id) || self.fin_maybe_ready.iter().filter(|x| *x == id).count() < self.fin_registered.iter().filter(|x| *x == id).count() {
                 self.fin_maybe_ready.push(*id);
             }
-            if exhaustive && self.fin_must_ready.iter().filter(|x| *x == id).count() < self.fin_registered.iter().filter(|x| *x == id).count() {
-                self.fin_must_ready.push(*id);
-            }
+        }
+        // Completeness: MMTk re-evaluates ready-but-unpopped objects at every GC (they are appended back
+        // to the candidates), so an object that became reachable again (e.g. through a popped object)
+        // legitimately leaves the ready queue.  After an exhaustive full-heap GC the ready queue must hold
+        // exactly the outstanding registrations of objects outside R1 (immortal objects are always "live").
+        // A nursery GC re-evaluates them with the generational approximation of liveness (every mature
+        // object counts as live), which legitimately moves a ready object back to the candidates until
+        // the next full-heap GC: the expectation only holds until the next collection of any kind.
+        self.fin_must_ready.clear();
+        if exhaustive {
+            self.fin_must_ready = fin_unreach.iter().copied().filter(|id| !self.immortal_ids.contains(id)).collect();
         }
 
         // --- C13 accounting
@@ -1546,6 +1609,15 @@ impl<const V: usize> Exec<V> {
                 if probed && probe_addrs.len() == probe_res.len() {
                     for (a, ok) in probe_addrs.iter().zip(probe_res.iter()) {
                         if let Some(id) = self.addr2id_pre(*a) {
+                            // `is_reachable` is the observable for "the strong closure is complete".  In a
+                            // nursery GC of GenCopy/GenImmix objects of the immortal space are neither traced nor
+                            // treated as mature by ImmortalSpace::is_reachable (it reads the mark bit the nursery
+                            // GC's prepare just reset), so the observable is not sound for them there; this says
+                            // nothing about *when* process_weak_refs was called (DESIGN.md section 7, item 14).
+                            if !full_heap && self.immortal_ids.contains(&id) {
+                                cnt!(self, "c13_abstain_immortal_in_nursery_gc");
+                                continue;
+                            }
                             if r2.contains(&id) && !*ok {
                                 self.violate("C13", "weak-before-closure", format!("GC #{}: at the first process_weak_refs call object id {} (reachable) reported is_reachable() == false", self.gcs_seen, id));
                                 return;
@@ -1677,9 +1749,13 @@ impl<const V: usize> Exec<V> {
 
         let used = mm::used_bytes(self.mmtk);
         self.used_after_gc.push(used);
+        if std::env::var("VH_TRACE").is_ok() {
+            let infos: Vec<String> = mmtk::verif::space_infos(self.mmtk).iter().map(|s| format!("{}:r{}c{}", s.name, s.reserved_pages, s.committed_pages)).collect();
+            eprintln!("  after GC #{}: used={} total={} nursery={:?} live_objs={} spaces={:?}", self.gcs_seen, used, mm::total_bytes(self.mmtk), nursery, self.objs.len(), infos);
+        }
         let total = mm::total_bytes(self.mmtk);
         let free = mm::free_bytes(self.mmtk);
-        if free + used > total + 4096 * 64 && self.case.dyn_heap.is_none() {
+        if free + used > total + 4096 * 64 && self.case.dyn_heap.is_none() && !self.overcommitted {
             // free = total - reserved; must never exceed total
             self.violate("C09", "free-plus-used", format!("GC #{}: free_bytes {} + used_bytes {} exceeds total_bytes {}", self.gcs_seen, free, used, total));
         }
@@ -1783,18 +1859,34 @@ impl<const V: usize> Exec<V> {
                 sem = AllocationSemantics::Los;
             }
         }
+        // Over-committed memory is never given back while reachable, and the virtual extent reserved for a
+        // space is only 2 x heap: bound the over-committed volume (DESIGN.md: C10 domain), counting the rest.
+        let mut overcommit = overcommit;
+        if overcommit && self.overcommitted_bytes + size.min(heap_bytes) > heap_bytes / 4 {
+            overcommit = false;
+            cnt!(self, "steered_overcommit_volume");
+        }
         let opts = AllocationOptions { allow_overcommit: overcommit, at_safepoint, allow_oom_call: allow_oom };
         let gl = g();
         let oom0 = gl.oom_calls.load(Ordering::SeqCst);
         let blk0 = gl.block_calls.load(Ordering::SeqCst);
         let gc0 = gl.resume_calls.load(Ordering::SeqCst);
+        // C10 (R6, "the call returns"): a watchdog thread reports a call that makes no callback progress
+        let desc = format!("alloc_with_options(size={}, {:?}, overcommit={}, at_safepoint={}, allow_oom_call={})", size, sem, overcommit, at_safepoint, allow_oom);
+        *gl.alloc_call_desc.lock().unwrap() = desc.clone();
+        self.alloc_call_seq += 1;
+        gl.in_alloc_call.store((self.alloc_call_seq << 1) | 1, Ordering::SeqCst);
         let a = mm::alloc_with_options(self.mutator(m), size, vd.min_align, 0, sem, opts);
+        gl.in_alloc_call.store(0, Ordering::SeqCst);
+        if overcommit && !a.is_zero() {
+            self.overcommitted = true;
+            self.overcommitted_bytes += size;
+        }
         let oom1 = gl.oom_calls.load(Ordering::SeqCst);
         let blk1 = gl.block_calls.load(Ordering::SeqCst);
         let gc1 = gl.resume_calls.load(Ordering::SeqCst);
         self.after_possible_gc();
         cnt!(self, "alloc_opts");
-        let desc = format!("alloc_with_options(size={}, {:?}, overcommit={}, at_safepoint={}, allow_oom_call={})", size, sem, overcommit, at_safepoint, allow_oom);
         if !allow_oom && oom1 != oom0 {
             self.violate("C10", "oom-call-disallowed", format!("{}: out_of_memory was called although allow_oom_call is false", desc));
             return;
@@ -1868,12 +1960,18 @@ pub struct Walk {
     /// (referent id, address in slot, reference id)
     pub weak_edges: Vec<(u64, usize, u64)>,
     pub align_lost: u64,
+    /// id of the object whose slots are being compared (0 = a root), and its value at the first error
+    pub cur_holder: u64,
+    pub err_holder: Option<u64>,
+    /// object id -> id of the object through whose slot it was first reached (0 = a root)
+    pub parent: HashMap<u64, u64>,
 }
 
 impl Walk {
     pub fn err(&mut self, e: String) {
         if self.error.is_none() {
             self.error = Some(e);
+            self.err_holder = Some(self.cur_holder);
         }
     }
 }
